@@ -3,7 +3,10 @@ package c11
 
 import (
 	"fmt"
+	"go/ast"
 	"go/constant"
+	"go/parser"
+	"go/token"
 	"go/types"
 	"math"
 	"strings"
@@ -131,6 +134,71 @@ func check(c Case) error {
 		if iv.Kind() != constant.Int || iv.ExactString() != string(c.Val.V) {
 			return bad()
 		}
+	}
+	return nil
+}
+
+// ---- several literals rendered with ONE File ----
+
+type listCase struct {
+	Vals []*recipe.Value `json:"vals"`
+}
+
+// checkList renders all values as elements of one composite literal in one File, cuts the
+// output at the element boundaries the parser reports and evaluates every element.
+func checkList(c listCase) error {
+	var items []*recipe.Node
+	for _, v := range c.Vals {
+		items = append(items, recipe.S().C("Lit", v))
+	}
+	fr := &recipe.File{Ctor: "NewFile", Args: []recipe.Text{"p"}, Body: []*recipe.Node{
+		recipe.S().C("Var").C("Id", "_").C("Op", "=").C("Index").C("Interface").C("Values", items),
+		recipe.S().C("Var").C("Id", "_").C("Op", "=").C("Index").C("Interface").C("Values", items), // and again, same File
+	}}
+	var src string
+	if err := hx.Safe(func() error {
+		f := (&recipe.Builder{}).File(fr)
+		src = f.GoString()
+		return nil
+	}); err != nil {
+		return fmt.Errorf("rendering %d literals in one File: %v", len(c.Vals), err)
+	}
+	fset := token.NewFileSet()
+	af, err := parser.ParseFile(fset, "", src, 0)
+	if err != nil {
+		return fmt.Errorf("output does not parse: %v\n%s", err, src)
+	}
+	n := 0
+	var ferr error
+	ast.Inspect(af, func(nd ast.Node) bool {
+		cl, ok := nd.(*ast.CompositeLit)
+		if !ok || ferr != nil {
+			return ferr == nil
+		}
+		if len(cl.Elts) != len(c.Vals) {
+			ferr = fmt.Errorf("%d values were given, the literal has %d elements\n%s", len(c.Vals), len(cl.Elts), src)
+			return false
+		}
+		for i, e := range cl.Elts {
+			text := src[fset.Position(e.Pos()).Offset:fset.Position(e.End()).Offset]
+			alone, err := litx.RenderStmt(recipe.S().C("Lit", c.Vals[i]), nil)
+			if err != nil {
+				ferr = err
+				return false
+			}
+			if a, b := strings.Join(strings.Fields(text), ""), strings.Join(strings.Fields(alone), ""); a != b {
+				ferr = fmt.Errorf("element %d, %s(%v): rendered as %q next to the other literals of this File, as %q alone", i, c.Vals[i].T, c.Vals[i].Go(), text, alone)
+				return false
+			}
+			n++
+		}
+		return false
+	})
+	if ferr != nil {
+		return ferr
+	}
+	if n != 2*len(c.Vals) {
+		return fmt.Errorf("expected two literals of %d elements, saw %d elements", len(c.Vals), n)
 	}
 	return nil
 }
@@ -319,7 +387,7 @@ func genValue(t *rapid.T) *recipe.Value {
 func TestC11(t *testing.T) {
 	r := hx.Start(t, "C11")
 	defer r.Finish(t)
-	r.Rule("exhaustive: bool, all int8/uint8 values (thorough: all int16/uint16 too; quick: every 37th), every decade 1e-330..1e310 x 5 mantissas x both signs for float64; rapid: boundary values, powers of two +-1 and random bit-lengths for wider integers, subnormals/extremes/integral/short-decimal/random-bit-pattern finite floats, complex from pairs; Lit and LitFunc, alone and embedded in an assignment / a call; non-trivial = value not in {0, 1, -1, true, false}; distinct by (type, value, form, context)")
+	r.Rule("exhaustive: bool, all int8/uint8 values (thorough: all int16/uint16 too; quick: every 37th), every decade 1e-330..1e310 x 5 mantissas x both signs for float64; rapid: boundary values, powers of two +-1 and random bit-lengths for wider integers, subnormals/extremes/integral/short-decimal/random-bit-pattern finite floats, complex from pairs; Lit and LitFunc, alone and embedded in an assignment / a call; lists of 2..30 literals (each value with relatives: swapped / equal complex parts, same bits in another type) rendered twice with one File and compared element by element with their rendering alone; non-trivial = value not in {0, 1, -1, true, false}; distinct by (type, value, form, context)")
 	r.Assume("NaN and infinities are outside the property (finite values only); -0.0 and 0.0 are the same Go constant")
 	ck := hx.Check[Case]{Name: "literal", Fn: check}
 	if !hx.Replay(r, ck) && r.Shard == 0 {
@@ -367,6 +435,30 @@ func TestC11(t *testing.T) {
 		}
 		r.Exhaustive("bool, int8, uint8 (thorough: int16, uint16), float64 decades 1e-330..1e310")
 	}
+	hx.Rapid(r, t, hx.Check[listCase]{Name: "literals_in_one_file", Fn: checkList}, r.N(1500, 15000), func(rt *rapid.T) listCase {
+		c := listCase{}
+		n := rapid.IntRange(2, 9).Draw(rt, "nvals")
+		for len(c.Vals) < n {
+			v := genValue(rt)
+			c.Vals = append(c.Vals, v)
+			// relatives of v that a careless cache or table could confuse with it
+			switch x := v.Go().(type) {
+			case complex128:
+				c.Vals = append(c.Vals, recipe.V(complex(imag(x), real(x))), recipe.V(complex(real(x), real(x))), recipe.V(complex(-real(x), -imag(x))))
+			case complex64:
+				c.Vals = append(c.Vals, recipe.V(complex(imag(x), real(x))), recipe.V(complex128(x)))
+			case float64:
+				c.Vals = append(c.Vals, recipe.V(float32(x)), recipe.V(-x), recipe.V(int64(math.Float64bits(x))), recipe.V(math.Float64bits(x)))
+			case int64:
+				c.Vals = append(c.Vals, recipe.V(uint64(x)), recipe.V(int(x)), recipe.V(int32(x)))
+			case uint8:
+				c.Vals = append(c.Vals, recipe.V(int8(x)), recipe.V(uint16(x)), recipe.V(int(x)))
+			}
+		}
+		r.NonTrivial(recipe.JSON(c))
+		r.Class("literal_lists")
+		return c
+	})
 	hx.Rapid(r, t, hx.Check[Case]{Name: "literal_random", Fn: check}, r.N(15000, 250000), func(rt *rapid.T) Case {
 		c := Case{Val: genValue(rt), Func: rapid.IntRange(0, 3).Draw(rt, "func") == 0, Ctx: rapid.SampledFrom([]string{"", "", "assign", "call"}).Draw(rt, "ctx")}
 		note(r, c)
